@@ -11,6 +11,7 @@ import (
 	"path/filepath"
 	"runtime/debug"
 	"strings"
+	"sync"
 	"time"
 
 	"github.com/golang/protobuf/proto"
@@ -30,7 +31,7 @@ func init() {
 	Registry["C20"] = &Prop{
 		Plan: func(tier string) Plan {
 			return Plan{Level: "exploration", NCases: pick(tier, 120, 3000), Batch: 3, CaseTimeout: 240,
-				Rule: "one case = a node wired as cmd/option.Run wires it (REAL Prometheus client with the cluster label, storage metrics wrapper, backend, etcd and native servers) receiving 80 generated requests: request structs of etcd Txn/Range/Watch/Lease and native Create/Update/Delete/Get/Range/Count/ListPartition/RangeStream/Compact/Watch are filled with PRNG values biased to hostile ones (keys of arbitrary bytes incl. invalid UTF-8, empty, containing '$' and the internal magic prefix; revisions 0, +-1, MinInt64, MaxInt64, 1888, far future; negative and huge limits; missing sub-messages; unsupported shapes), marshalled and unmarshalled (so exactly the protobuf-decodable ones) and written to disk before being sent. " +
+				Rule: "one case = a node wired as cmd/option.Run wires it (REAL Prometheus client with the cluster label, storage metrics wrapper, backend, etcd and native servers) receiving a burst of 8 concurrent first requests and then 80 generated requests: request structs of etcd Txn/Range/Watch/Lease and native Create/Update/Delete/Get/Range/Count/ListPartition/RangeStream/Compact/Watch are filled with PRNG values biased to hostile ones (keys of arbitrary bytes incl. invalid UTF-8, empty, containing '$' and the internal magic prefix; revisions 0, +-1, MinInt64, MaxInt64, 1888, far future; negative and huge limits; missing sub-messages; unsupported shapes), marshalled and unmarshalled (so exactly the protobuf-decodable ones) and written to disk before being sent. " +
 					"oracle: the call returns within a watchdog; no panic (recovered in the calling goroutine, process death otherwise, the last logged request being the witness); a recording metrics decorator never sees one metric name with two label-name sets or kinds; after every request a probe create + Range(rev=0) + a pre-opened watcher see the new key, and the notify-deposit conservation monitor (C04) gives the wedge verdict without a timeout. " +
 					"non-trivial = case that sent >=10 distinct request types incl. >=1 watch on a non-UTF-8 prefix, >=1 negative revision and >=1 unsupported txn; distinct by request digest",
 				Assumptions: []string{"3 of 4 cases call the handlers in-process with protobuf-round-tripped requests, every 4th goes through a real loopback gRPC connection with the metrics client's server options", "the election is a stub reporting 'leader'; leader.election.* and TLS call sites are not reachable",
@@ -254,6 +255,37 @@ func runC20(c *harness.Case) {
 		return true
 	}
 	ctx := context.Background()
+	// a burst of concurrent first requests: in the first case of a worker process these are the first-ever emissions
+	// of their metrics, made concurrently (metric registration must be safe under concurrency as well)
+	{
+		var bwg sync.WaitGroup
+		gate := make(chan struct{})
+		for g := 0; g < 8; g++ {
+			bwg.Add(1)
+			go func(g int) {
+				defer bwg.Done()
+				<-gate
+				k := []byte(fmt.Sprintf("%s/fz/burst%d", harness.Prefix, g%3))
+				switch g % 4 {
+				case 0:
+					es.Range(ctx, &etcdserverpb.RangeRequest{Key: k})
+				case 1:
+					es.Txn(ctx, etcdCreate(string(k), []byte("b")))
+				case 2:
+					bs.Get(ctx, &pb.GetRequest{Key: k})
+				default:
+					es.Range(ctx, &etcdserverpb.RangeRequest{Key: []byte(harness.Prefix + "/"), RangeEnd: []byte(harness.Prefix + "0"), Limit: 2})
+				}
+			}(g)
+		}
+		fmt.Fprintf(os.Stderr, "C20 case %d sending a burst of 8 concurrent first requests (Range/Txn/Get)\n", c.Index)
+		close(gate)
+		bwg.Wait()
+		c.Stat("concurrent_burst_requests", 8)
+		if !probe("burst of 8 concurrent requests") {
+			return
+		}
+	}
 	for i := 0; i < 80; i++ {
 		cur := n.Committed()
 		key, key2 := hostileKey(r), hostileKey(r)
